@@ -89,6 +89,7 @@ type RecInfo struct {
 type DecodeOpts struct {
 	KeyLog map[string][]byte // client_random hex -> master secret (from either endpoint's key log)
 	EncD   *big.Int          // server's encryption private key: if set, the pre-master is decrypted independently
+	RSAD   *RSAKey           // TLS 1.2 RSA key exchange: the server key, same purpose
 	// Tolerant: stop at the first record that does not authenticate instead of
 	// failing (used when the capture contains injected faults).
 	Tolerant bool
@@ -115,6 +116,7 @@ type Session struct {
 	Complete    bool      // both Finished verified
 	Stopped     [2]string // Tolerant: why decoding of a direction stopped
 	Transcript  []byte
+	CVChecked   bool // TLS 1.2: the CertificateVerify signature was of a kind the reference verifies
 }
 
 type dirState struct {
@@ -142,8 +144,10 @@ func (s *Session) next(d int, st *dirState, keys func() (*Half, error), tolerant
 		st.i++
 		body := r.Body
 		info := RecInfo{Type: r.Type, WireLen: len(r.Body)}
-		if r.Vers != VersionGM {
-			return nil, fmt.Errorf("record %d of direction %d has version %04x, want 0101", st.i-1, d, r.Vers)
+		if s.SH == nil && r.Vers >= 0x0301 && r.Vers <= VersionTLS12 {
+			// TLS: records before the version is negotiated may carry 0x0301..0x0303
+		} else if want := s.recVers(); r.Vers != want {
+			return nil, fmt.Errorf("record %d of direction %d has version %04x, want %04x", st.i-1, d, r.Vers, want)
 		}
 		if st.half != nil {
 			info.Protected = true
@@ -203,7 +207,20 @@ func (s *Session) next(d int, st *dirState, keys func() (*Half, error), tolerant
 	}
 }
 
-// Decode replays a captured GMSSL connection independently.
+func (s *Session) recVers() uint16 {
+	if s.SH != nil {
+		return s.SH.Vers
+	}
+	return VersionGM
+}
+
+// GM reports whether the session negotiated a GM/T 0024 suite.
+func (s *Session) GM() bool {
+	d := Suite(s.Suite)
+	return d == nil || d.GM
+}
+
+// Decode replays a captured GMSSL (or TLS 1.2 RSA key exchange) connection independently.
 func Decode(c2s, s2c []byte, o DecodeOpts) (*Session, error) {
 	s := &Session{}
 	var st [2]*dirState
@@ -274,7 +291,7 @@ func Decode(c2s, s2c []byte, o DecodeOpts) (*Session, error) {
 		return s, fmt.Errorf("ClientHello: %v", err)
 	}
 	tr(m)
-	if s.CH.Vers != VersionGM {
+	if s.CH.Vers != VersionGM && s.CH.Vers != VersionTLS12 {
 		return s, fmt.Errorf("ClientHello version %04x", s.CH.Vers)
 	}
 	if m, err = expect(1, HsServerHello); err != nil {
@@ -284,8 +301,8 @@ func Decode(c2s, s2c []byte, o DecodeOpts) (*Session, error) {
 		return s, fmt.Errorf("ServerHello: %v", err)
 	}
 	tr(m)
-	if s.SH.Vers != VersionGM {
-		return s, fmt.Errorf("ServerHello version %04x", s.SH.Vers)
+	if s.SH.Vers != s.CH.Vers {
+		return s, fmt.Errorf("ServerHello version %04x, ClientHello version %04x", s.SH.Vers, s.CH.Vers)
 	}
 	s.Suite = s.SH.Suite
 	offered := false
@@ -300,6 +317,10 @@ func Decode(c2s, s2c []byte, o DecodeOpts) (*Session, error) {
 	if _, _, _, ok := SuiteParams(s.Suite); !ok {
 		return s, fmt.Errorf("suite %04x not decodable by the reference", s.Suite)
 	}
+	if VersionOf(s.Suite) != s.SH.Vers {
+		return s, fmt.Errorf("suite %04x selected under version %04x", s.Suite, s.SH.Vers)
+	}
+	gm := s.GM()
 	if s.SH.Compression != 0 {
 		return s, errors.New("non-null compression selected")
 	}
@@ -320,7 +341,7 @@ func Decode(c2s, s2c []byte, o DecodeOpts) (*Session, error) {
 		if err != nil {
 			return err
 		}
-		want := FinishedData(s.Master, client, s.Transcript)
+		want := FinishedData(s.Suite, s.Master, client, s.Transcript)
 		if !bytes.Equal(fm.Body, want) {
 			return fmt.Errorf("Finished of direction %d does not match PRF(master, label, SM3(transcript)): got %x want %x", d, fm.Body, want)
 		}
@@ -367,29 +388,38 @@ func Decode(c2s, s2c []byte, o DecodeOpts) (*Session, error) {
 			return s, err
 		}
 		tr(m)
-		if len(s.ServerCerts) < 2 {
-			return s, errors.New("server Certificate message carries fewer than two certificates")
+		if gm {
+			if len(s.ServerCerts) < 2 {
+				return s, errors.New("server Certificate message carries fewer than two certificates")
+			}
+			if m, err = expect(1, HsServerKeyExchange); err != nil {
+				return s, err
+			}
+			sig, err := ParseVec16Body(m.Body)
+			if err != nil {
+				return s, fmt.Errorf("ServerKeyExchange: %v", err)
+			}
+			signPub, err := PubFromCert(s.ServerCerts[0])
+			if err != nil {
+				return s, fmt.Errorf("signing certificate: %v", err)
+			}
+			if !SM2Verify(signPub, SKXSignedData(s.CH.Random, s.SH.Random, s.ServerCerts[1]), sig) {
+				return s, errors.New("ServerKeyExchange signature does not verify over client_random||server_random||encryption certificate under the signing certificate")
+			}
+			tr(m)
+		} else if len(s.ServerCerts) < 1 {
+			return s, errors.New("server Certificate message is empty")
 		}
-		if m, err = expect(1, HsServerKeyExchange); err != nil {
-			return s, err
-		}
-		sig, err := ParseVec16Body(m.Body)
-		if err != nil {
-			return s, fmt.Errorf("ServerKeyExchange: %v", err)
-		}
-		signPub, err := PubFromCert(s.ServerCerts[0])
-		if err != nil {
-			return s, fmt.Errorf("signing certificate: %v", err)
-		}
-		if !SM2Verify(signPub, SKXSignedData(s.CH.Random, s.SH.Random, s.ServerCerts[1]), sig) {
-			return s, errors.New("ServerKeyExchange signature does not verify over client_random||server_random||encryption certificate under the signing certificate")
-		}
-		tr(m)
 		if m, err = next(1); err != nil {
 			return s, err
 		}
 		if m != nil && m.Type == HsCertificateRequest {
-			if s.CertReq, err = ParseCertificateRequest(m.Body); err != nil {
+			if gm {
+				s.CertReq, err = ParseCertificateRequest(m.Body)
+			} else {
+				s.CertReq, err = ParseCertificateRequest12(m.Body)
+			}
+			if err != nil {
 				return s, fmt.Errorf("CertificateRequest: %v", err)
 			}
 			s.HasCertReq = true
@@ -426,10 +456,16 @@ func Decode(c2s, s2c []byte, o DecodeOpts) (*Session, error) {
 			return s, fmt.Errorf("ClientKeyExchange: %v", err)
 		}
 		tr(m)
-		if o.EncD != nil {
-			pre, ok := SM2Decrypt(o.EncD, enc)
+		if (gm && o.EncD != nil) || (!gm && o.RSAD != nil) {
+			var pre []byte
+			var ok bool
+			if gm {
+				pre, ok = SM2Decrypt(o.EncD, enc)
+			} else {
+				pre, ok = RSADecrypt(o.RSAD, enc)
+			}
 			if !ok {
-				return s, errors.New("ClientKeyExchange does not decrypt under the server's encryption key (GM/T 0009 SM2Cipher)")
+				return s, errors.New("ClientKeyExchange does not decrypt under the server's encryption key (GM/T 0009 SM2Cipher / RSAES-PKCS1-v1_5)")
 			}
 			if len(pre) != 48 {
 				return s, fmt.Errorf("pre-master secret is %d bytes, want 48", len(pre))
@@ -438,7 +474,7 @@ func Decode(c2s, s2c []byte, o DecodeOpts) (*Session, error) {
 				return s, fmt.Errorf("pre-master secret version %04x != ClientHello version %04x", binary.BigEndian.Uint16(pre), s.CH.Vers)
 			}
 			s.PreMaster = pre
-			ms := MasterSecret(pre, s.CH.Random, s.SH.Random)
+			ms := MasterSecret(s.Suite, pre, s.CH.Random, s.SH.Random)
 			if s.Master != nil && !bytes.Equal(ms, s.Master) {
 				return s, fmt.Errorf("PRF-SM3(pre-master, \"master secret\", randoms) = %x but the endpoint logged %x", ms, s.Master)
 			}
@@ -454,17 +490,31 @@ func Decode(c2s, s2c []byte, o DecodeOpts) (*Session, error) {
 			if m == nil || m.Type != HsCertificateVerify {
 				return s, errors.New("client sent a certificate but no CertificateVerify")
 			}
-			cvSig, err := ParseVec16Body(m.Body)
-			if err != nil {
-				return s, fmt.Errorf("CertificateVerify: %v", err)
-			}
-			cpub, err := PubFromCert(s.ClientCerts[0])
-			if err != nil {
-				return s, fmt.Errorf("client certificate: %v", err)
-			}
-			h := refsm3.Sum(s.Transcript)
-			if !SM2Verify(cpub, h[:], cvSig) {
-				return s, errors.New("CertificateVerify does not verify over SM3(handshake messages) under the client certificate")
+			if gm {
+				cvSig, err := ParseVec16Body(m.Body)
+				if err != nil {
+					return s, fmt.Errorf("CertificateVerify: %v", err)
+				}
+				cpub, err := PubFromCert(s.ClientCerts[0])
+				if err != nil {
+					return s, fmt.Errorf("client certificate: %v", err)
+				}
+				h := refsm3.Sum(s.Transcript)
+				if !SM2Verify(cpub, h[:], cvSig) {
+					return s, errors.New("CertificateVerify does not verify over SM3(handshake messages) under the client certificate")
+				}
+			} else {
+				alg, cvSig, err := ParseCertVerify12(m.Body)
+				if err != nil {
+					return s, fmt.Errorf("CertificateVerify: %v", err)
+				}
+				// only RSA PKCS#1 v1.5 / SHA-256 client signatures are checked; others are left to the stdlib peer runs
+				if n, e, err := RSAPubFromCert(s.ClientCerts[0]); err == nil && alg == SigRSAPKCS1SHA256 {
+					if !RSAVerifySHA256(n, e, s.Transcript, cvSig) {
+						return s, errors.New("CertificateVerify does not verify over the handshake messages under the client certificate")
+					}
+					s.CVChecked = true
+				}
 			}
 			tr(m)
 			if m, err = next(0); err != nil {
@@ -528,7 +578,7 @@ func (s *Session) AuditNonces(d int) error {
 		if !r.Protected || r.Explicit == nil {
 			continue
 		}
-		if s.Suite == SuiteGCM {
+		if Suite(s.Suite).AEAD {
 			got := binary.BigEndian.Uint64(r.Explicit)
 			if first {
 				want = got
